@@ -4,8 +4,9 @@
   * `median`  : Acord2::median (acord2.cpp) — also the form used by Statistics_g2d::calculation
                 and ApproxPoint::ArrangeObservations ((s[n/2-1]+s[n/2])/2 for even n, s[(n+1)/2-1] for odd n);
   * `median2` : the form `(s[(n-1)/2] + s[n/2])/2` of Acord2::get_medians_z, AcordZderived;
-  * `orientation` : Orientation::orientation (orientation.cpp): shifts bearing − direction wrapped
-                to [−π, π] by the two `while` loops, the `n < 3` rule, the median, `+2π` if negative.
+  * `orientation` : Orientation::orientation (orientation.cpp, after fix 01e764d): shifts bearing − direction
+                wrapped to [−π, π] by the two `while` loops; median + mean deviation in that wrapping and in
+                [0, 2π); the wrapping with the smaller mean deviation wins; `+2π` if negative.
 
   `std::sort` is modelled by insertion sort (the sorted sequence of values is unique).
   Precondition of `median` in the C++: non-empty vector (size 0 indexes v[-1]); all callers guarantee it.
@@ -55,16 +56,29 @@ def wrap (fuel : Nat) (x : K) : K := wrapUp fuel (wrapDown fuel x)
 /-- one shift `df = zn - sn` wrapped -/
 def shift (fuel : Nat) (zn sn : K) : K := wrap fuel (zn - sn)
 
-/-- the part of Orientation::orientation after the shifts have been collected -/
+/-- the lambda `median(s, dev)` of Orientation::orientation (fix 01e764d): sorts, takes
+    `(s[(n-1)/2] + s[n/2])/2` (the lower one when `n < 3` and the two differ by more than π/2)
+    and the mean absolute deviation from it; returns (sorted s, med, dev) -/
+def medianDev (s : List K) : List K × K × K :=
+  let n := s.length
+  let ss := sort s
+  let l1a := nth ss ((n - 1) / 2)
+  let l1b := nth ss (n / 2)
+  let med := if (pi : K) / two < abs (l1b - l1a) ∧ n < 3 then l1a else (l1a + l1b) / two
+  let dev := ss.foldl (fun acc x => acc + abs (x - med)) (0 : K) / ofNat n
+  (ss, med, dev)
+
+/-- the part of Orientation::orientation after the shifts have been collected: the median is taken
+    in the wrapping [−π,π] and, over the same (now sorted) shifts moved to [0,2π), once more; the one
+    with the smaller mean deviation wins (`dw < d`), then `+2π` if negative -/
 def orientationOfShifts (sz : List K) : K × Nat :=
   let n := sz.length
   if n = 0 then (0, 0)
   else
-    let s := sort sz
-    let l1a := nth s ((n - 1) / 2)
-    let l1b := nth s (n / 2)
-    let l1 := if (pi : K) / two < abs (l1b - l1a) ∧ n < 3 then l1a
-              else (nth s (n / 2) + nth s ((n - 1) / 2)) / two
+    let r := medianDev sz
+    let sw := r.1.map (fun x => if x < 0 then x + twoPi else x)
+    let rw := medianDev sw
+    let l1 := if rw.2.2 < r.2.2 then rw.2.1 else r.2.1
     (if l1 < 0 then l1 + twoPi else l1, n)
 
 /-- Orientation::orientation on the (bearing to target, direction value) pairs of the
